@@ -8,8 +8,8 @@ namespace Rtcp.Proofs
 open Rtcp Rtcp.Impl Rtcp.Spec
 
 theorem layout_packet_length (pt : UInt8) (c : Nat) (p : UInt8) (body : Bytes) :
-    (packet pt c p body).length = 4 + body.length + p.toNat := by
-  sorry
+    (packet pt c p body).length = 4 + body.length + p.toNat :=
+  packet_length pt c p body
 
 theorem layout_packet_header (pt : UInt8) (c : Nat) (p : UInt8) (body : Bytes) (hc : c ≤ 31)
     (h4 : (body.length + p.toNat) % 4 = 0) (hs : 4 + body.length + p.toNat ≤ 262144) :
@@ -17,24 +17,74 @@ theorem layout_packet_header (pt : UInt8) (c : Nat) (p : UInt8) (body : Bytes) (
     version img = 2 ∧ (pbit img = true ↔ p ≠ 0) ∧ count img = c ∧ ptype img = pt ∧
     (img.getD 2 0).toNat * 256 + (img.getD 3 0).toNat = img.length / 4 - 1 ∧
     lengthField img = img.length := by
-  sorry
+  intro img
+  have hbytes : (img.getD 2 0).toNat * 256 + (img.getD 3 0).toNat = img.length / 4 - 1 := by
+    show ((packet pt c p body).getD 2 0).toNat * 256 + ((packet pt c p body).getD 3 0).toNat
+      = (packet pt c p body).length / 4 - 1
+    rw [packet_length, RT.packet_cons, trailer_length]
+    simp only [List.getD_cons_succ, List.getD_cons_zero]
+    have h1 : ((4 + body.length + p.toNat) / 4 - 1) % 65536 = (4 + body.length + p.toNat) / 4 - 1 := by
+      omega
+    rw [h1, Read.toUInt16_toNat _ (by omega), RT.toUInt8_toNat_lt (by omega),
+      RT.toUInt8_toNat_lt (by omega)]
+    omega
+  refine ⟨RT.version_packet pt c p body, ?_, ?_, RT.ptype_packet pt c p body, hbytes, ?_⟩
+  · show pbit (packet pt c p body) = true ↔ p ≠ 0
+    rw [RT.pbit_packet]
+    simp
+  · show count (packet pt c p body) = c
+    rw [RT.count_packet]
+    omega
+  · have hl : img.length = 4 + body.length + p.toNat := packet_length pt c p body
+    unfold lengthField
+    rw [hbytes, hl]
+    omega
 
 theorem layout_packet_body_trailer (pt : UInt8) (c : Nat) (p : UInt8) (body : Bytes) :
     let img := packet pt c p body
     range img 4 (4 + body.length) = body ∧
     (p ≠ 0 → img.drop (4 + body.length) = List.replicate (p.toNat - 1) 0 ++ [p]) ∧
     (p = 0 → img.drop (4 + body.length) = []) := by
-  sorry
+  intro img
+  obtain ⟨hdr, hlen, himg⟩ := RT.packet_decomp pt c p body
+  have himg' : img = hdr ++ body ++ trailer p := himg
+  have hdrop : img.drop (4 + body.length) = trailer p := by
+    rw [himg']
+    have : (hdr ++ body).length = 4 + body.length := by simp [hlen]
+    rw [← this, List.drop_left]
+  refine ⟨?_, ?_, ?_⟩
+  · rw [himg']
+    unfold range
+    have : (hdr ++ body).length = 4 + body.length := by simp [hlen]
+    rw [← this, List.take_left, ← hlen, List.drop_left]
+  · intro hp
+    rw [hdrop]
+    simp [trailer, hp]
+  · intro hp
+    rw [hdrop]
+    simp [trailer, hp]
 
 theorem layout_be_layout (x : UInt32) (y : UInt16) :
     be32 x = [(x.toNat / 16777216).toUInt8, (x.toNat / 65536 % 256).toUInt8, (x.toNat / 256 % 256).toUInt8,
               (x.toNat % 256).toUInt8] ∧
     be16 y = [(y.toNat / 256).toUInt8, (y.toNat % 256).toUInt8] := by
-  sorry
+  have hx := x.toNat_lt
+  have hy := y.toNat_lt
+  have h1 : x.toNat / 16777216 % 256 = x.toNat / 16777216 := by omega
+  have h2 : y.toNat / 256 % 256 = y.toNat / 256 := by omega
+  constructor
+  · simp only [be32, h1]
+  · simp only [be16, h2]
 
 theorem layout_chunk_layout (c : SdesChunkBuilder) :
     ∃ fill, chunkImage c = be32 c.ssrc ++ (c.items.map itemImage).flatten ++ [0] ++ List.replicate fill 0 ∧
       fill < 4 ∧ (chunkImage c).length % 4 = 0 := by
-  sorry
+  refine ⟨pad4 (be32 c.ssrc ++ (c.items.map itemImage).flatten ++ [0]).length
+      - (be32 c.ssrc ++ (c.items.map itemImage).flatten ++ [0]).length, rfl, ?_, ?_⟩
+  · have := pad4_lt (be32 c.ssrc ++ (c.items.map itemImage).flatten ++ [0]).length
+    omega
+  · unfold chunkImage
+    rw [zfill_length]
+    exact pad4_mod _
 
 end Rtcp.Proofs
